@@ -10,7 +10,8 @@ MODEL_NAME = "Html/Stream.v"
 HARNESS = "stream"
 HARNESS_ARGS = ["c07"]
 ALLOWED_AXIOMS = []
-READY = False
+READY = True
+RUN_IMPORT = "Html.StreamRun"
 
 RULE = ("case = (ooo?, drive, view tree, futures complete before rendering, schedule). Trees: a fixed set of "
         "template shapes (text/element siblings on either side of a Suspend, Suspend nested in Suspend, Suspense-like "
@@ -764,7 +765,20 @@ def coverage_extra(results):
                 leptos_component_cases_oracle_only=sum(1 for r in results if not r["item"].get("compare", True)))
 
 
-LEVEL_TEXT = ""
-LEVEL_NOTE = ""
+LEVEL_TEXT = ("Coq proofs about an executable Gallina transcription of tachys' StreamBuilder (push_*/append/finish/"
+              "take_chunks, poll_next with its pending / pending_ooo / in-place-splice / template branches) and of the "
+              "streaming renderers of text, elements, tuples, Suspend, a Suspense-like boundary and ErrorBoundary-like append: "
+              "for ALL views and ALL schedules of completions and polls — no lost wake-up (a Pending poll leaves the waker "
+              "with an incomplete future owned by the stream; a wake-driven executor never stalls), termination within "
+              "4|v|+4 polls once all futures are complete, and, outside the decidable class of finding F-C07-a (refuted by "
+              "witness inside it), in-order chunks concatenate to the resolved render. Tied to /repo by running the extracted "
+              "model and the real code (real tachys views and StreamBuilder, oneshot-controlled futures, hand-polled stream, "
+              "counting waker) on the same thousands of trees x schedules every run, plus a model-independent oracle that parses "
+              "the streamed bytes like a browser (incremental parse, inert <template>, re-implemented replacement script), "
+              "also applied to the real leptos Suspense/Transition/ErrorBoundary components.")
+LEVEL_NOTE = ("Trusted: Coq kernel, ExtrOcamlBasic extraction + OCaml driver, the Rust harness (its Suspense-like boundary and "
+              "append wrapper transcribe leptos' call patterns; the real leptos components are checked by the oracle only, they "
+              "are not modelled), the browser semantics encoded in Stream.apply_ooo / gen/htmlparse_stream.py; String::find of a "
+              "marker is modelled as a token search. No axioms.")
 TECHNIQUE = ("Coq proof (invariants of the poll_next state machine, induction over views and schedules) + differential "
              "correspondence of the extracted model with the Rust code")
